@@ -199,6 +199,8 @@ def rule_entry(prog, rep):
         hidden = subst(t, lambda s: ("sym", "UNWRAPPED") if same(s, U) else None)
         raw = [s for s in walk(hidden) if s == SELF]
         used = any(s == ("sym", "UNWRAPPED") for s in walk(hidden))
+        # the private cores it lifts are the unwrapped object's own
+        raw += [s for s in walk(hidden) if s[0] == "attr" and s[2] in PRIVATE and s[1] != ("sym", "UNWRAPPED")]
         rep.check(used and not raw, "C12.entry", method_site(prog, c, name), f"AbstractDistribution.{name}:self=unwrap(self)",
                   "every field/method access goes through unwrap(self)",
                   f"{name} touches the raw (possibly wrapped) self: {show(hidden, 240)}")
@@ -281,7 +283,9 @@ def rule_entry(prog, rep):
                         if refs and all(private_core_like(_outermost_def(mod.tree, n2)) for n2 in refs):
                             ok = True
                     if fn2.name in PUBLIC:
-                        ok = isinstance(node.value, ast.Name) and node.value.id == "self"
+                        # `self` (rebound to unwrap(self)) or a local holding it: which object that local is, is decided
+                        # on the method's term above (every private core there is an attribute of unwrap(self))
+                        ok = isinstance(node.value, ast.Name) and (node.value.id == "self" or _is_local(fn2, node.value.id))
                     if fn2.name in PRIVATE:
                         ok = True
                     kk = f"{mod.name}.{fn2.name}:{ast.unparse(node)}"
@@ -290,6 +294,13 @@ def rule_entry(prog, rep):
                               f"private core {ast.unparse(node)} is used from {fn2.name}, outside the unwrapped "
                               f"private/public method set")
     rep.analysed["private_core_sites"] = n
+
+
+def _is_local(fn, name):
+    for n in ast.walk(fn):
+        if isinstance(n, ast.Name) and n.id == name and isinstance(n.ctx, ast.Store):
+            return True
+    return False
 
 
 def _outermost_def(tree, target):
